@@ -205,7 +205,7 @@ type Src struct {
 	Text string    `json:"text,omitempty"` // literal text placed before the fixture bytes
 	Pad  int       `json:"pad,omitempty"`  // one generated line of this many bytes appended (no line break inside)
 	Zip  []ZipEnt  `json:"zip,omitempty"`
-	Gen  string    `json:"gen,omitempty"`  // built-in generated content: rpm-wal-db | rpm-wal-wal (walfixture.go)
+	Gen  string    `json:"gen,omitempty"`  // built-in generated content: rpm-wal-db | rpm-wal-wal | rpm-wal-checkpointed (walfixture.go)
 	Elf  *ElfSpec  `json:"elf,omitempty"`  // a generated ELF file (synth.go)
 	Bolt *BoltSpec `json:"bolt,omitempty"` // a generated bolt database in containerd's layout (synth.go)
 	Ops  []Op      `json:"ops,omitempty"`
@@ -303,6 +303,9 @@ func (s *Src) bytes(corrupt bool) ([]byte, error) {
 		switch s.Gen {
 		case "rpm-wal-db":
 			d, _ := base64.StdEncoding.DecodeString(walDB)
+			b = append(b, d...)
+		case "rpm-wal-checkpointed":
+			d, _ := base64.StdEncoding.DecodeString(walDB2)
 			b = append(b, d...)
 		case "rpm-wal-wal":
 			d, _ := base64.StdEncoding.DecodeString(walWAL)
